@@ -8,3 +8,4 @@ def run(ck):
     filt.r1_layout(ck, P)
     filt.r2_write_accounting(ck, P)
     filt.r4_kernel_table(ck, P)
+    filt.r_axis_consistency(ck, P, 'C18-R5')
